@@ -5,7 +5,7 @@
    The refinement "Go code refines AM" itself is not a theorem: C02_partial. *)
 From stdpp Require Import gmap list.
 From Coq Require Import NArith.
-From V Require Import Model.Lib Model.Afs Proofs.AfsLaws.
+From V Require Import Model.Lib Model.Afs Proofs.AfsLaws Proofs.AfsInv.
 Open Scope N_scope.
 
 Theorem C02_failed_call_identity : forall P s c h,
@@ -22,3 +22,17 @@ Proof. exact unsupported_no_effect. Qed.
 
 Theorem C02_restart_identity : forall P s h, step P s CRestart h = (s, RStatus OK).
 Proof. exact restart_identity. Qed.
+
+(* the namespace of the reference is a tree for every history of calls, replies and resource hints:
+   entries are held by directories only, name live non-root objects whose parent field points back,
+   every non-root object has exactly one name, and only the root is its own parent *)
+Theorem C02_namespace_is_a_tree : forall P unstable cs, ainv (run P (init_afs unstable) cs).
+Proof. exact ainv_reachable. Qed.
+Print Assumptions C02_namespace_is_a_tree.
+
+Theorem C02_dotdot_inverse : forall P u cs di d n i o,
+  let s := run P (init_afs u) cs in
+  objs s !! di = Some d -> o_ents d !! n = Some i -> objs s !! i = Some o ->
+  lookup_name i o dotdot = Some di.
+Proof. exact dotdot_inverse. Qed.
+Print Assumptions C02_dotdot_inverse.
